@@ -54,4 +54,17 @@ theorem sqlJoin_eq (L : LikeFn) (d : Dialect) (conds : SqlList) (e : Expr) : ∀
         rw [Bool.eq_iff_iff]; simpa using hiff
       simp [sqlJoin, hp, hk, ih, List.filter_cons, pyRow, hsel]
 
+
+theorem pyExists_joinedM (pk : Int) (links : List Link) (children : List MChild) (e : Expr) :
+    pyExists pk (joinedM links children) e = pyExistsM pk links children e := by
+  rw [Bool.eq_iff_iff]
+  simp only [pyExists, pyExistsM, members, membersM, joinedM, List.any_eq_true, List.mem_filter, List.mem_flatMap, List.mem_map,
+    Bool.and_eq_true, beq_iff_eq]
+  constructor
+  · rintro ⟨c, ⟨⟨l, hl, m, ⟨hm, hid⟩, rfl⟩, hfk⟩, hsel⟩
+    simp only [Option.some.injEq] at hfk
+    exact ⟨m, ⟨hm, l, hl, hfk, hid.symm⟩, hsel⟩
+  · rintro ⟨m, ⟨hm, l, hl, hp, hc⟩, hsel⟩
+    exact ⟨⟨some l.parent, m.env⟩, ⟨⟨l, hl, m, ⟨hm, hc.symm⟩, rfl⟩, by simp [hp]⟩, hsel⟩
+
 end PonyVerif.Model.Q
